@@ -28,6 +28,9 @@ FNS = {
     # equal-length {3,3}; nested ragged std::vector<std::vector<VectorXd>> {{2,3},{1}} (with a double)
     35: ("vvmap.ragged342", 1, 8), 36: ("svv.ragged15_SO3", 2, 4), 37: ("svv.v2_ragged223_s", 3, 4), 38: ("svv.equal33", 1, 8),
     39: ("snest.ragged23_1_s", 2, 4),
+    # vector-valued callables differentiated to second order (stacked Hessian with ny = 2, 3 blocks, 2 and 3 arguments)
+    40: ("vquad.v2_v3", 2, 4), 41: ("act2.SO3d", 2, 4), 42: ("vse2.SE2_v2_s", 3, 4), 43: ("vdyn.wX_SO3_v2", 3, 4),
+    44: ("ana.vec.v2_v3", 2, 4),
 }
 PLAN = {"quick": dict(n=8, scale=1), "thorough": dict(n=160, scale=4)}
 
@@ -43,12 +46,16 @@ REQUIRED_CELLS = [
     "acc|vvmap.ragged342|jac", "acc|svv.ragged15_SO3|jac", "acc|svv.ragged15_SO3|hess",
     "acc|svv.v2_ragged223_s|jac", "acc|svv.v2_ragged223_s|hess", "acc|svv.equal33|jac", "acc|svv.equal33|hess",
     "acc|snest.ragged23_1_s|jac", "acc|snest.ragged23_1_s|hess",
+    # stacked Hessians of vector-valued callables with several arguments (numerical and verbatim), full and subset
+    "acc|vquad.v2_v3|hess", "acc|act2.SO3d|hess", "acc|vse2.SE2_v2_s|hess", "acc|vdyn.wX_SO3_v2|hess", "acc|ana.vec.v2_v3|hess",
+    "acc|ana.vec.v2_v3|analytic.K2", "shape|C08.hess.ny3.args2", "shape|C08.hess.ny2.args3", "shape|C08.hess.ny2.args2",
+    "shape|C08.subset.hess.ny3.args2", "shape|C08.subset.hess.ny2.args3", "shape|C08.subset.hess.ny2.args2",
     "acc|vprod.vecSO3_SO3|jac", "acc|vact.vecSO3_v3_s|jac", "acc|vsqn.vecSO3_SO3|jac", "acc|vsqn.vecSO3_SO3|hess",
 ]
 
 ASSUME = [
     "oracle: expression tree of the callable evaluated over exact rationals from the documented matrix forms (spec/Groups.tla): chain rule over Ad = vee(M hat(e_i) M^-1), Jr = Phi1(-ad) by certified power series, matrix actions, monomial differentiation; logarithms are specified relationally (Exp(w) = M, residual solved to 1e-40 from the logged witness); Hessians by exact central differences (h = 2^-32) of the exact Jacobian, truncation h^2/6 |d^3 J| assumed < 1e-9 on the family",
-    "the callables are a closed finite family (39 callables, about 1600 compile-time instantiations of dr); points are a seeded sample (generic / coordinates at 0.1 and 10 / many zero coordinates / identity), not all points",
+    "the callables are a closed finite family (44 callables, about 1900 compile-time instantiations of dr); points are a seeded sample (generic / coordinates at 0.1 and 10 / many zero coordinates / identity), not all points",
     "'O(1) values and derivatives' is read as: no value entry above 10 and the largest entry of the requested exact Jacobian / Hessian in [0.1, 10] (the property's own range for 'magnitude'); calls outside are not judged for accuracy (counted as skipped)",
     "the value clause compares with the callable evaluated directly by the harness (bitwise) and with the specification's exact value (1e-9)",
     "TLC, the JVM and the BigRat / RFun Java overrides (differentially tested against the plain TLA+ definitions) are trusted",
